@@ -23,6 +23,13 @@ pub fn uid_of_ev(e: &sc::Ev) -> Option<usize> {
 }
 
 pub fn run_tree(o: &Opts) {
+    run_tree_from(o, false)
+}
+
+/// `vary_root`: the root script is dispatched through wasm_sudo or migrate (to the same code) instead of execute
+/// — each has its own call site of the response processing in WasmKeeper
+pub fn run_tree_from(o: &Opts, vary_root: bool) {
+    let root_entry = if vary_root { 1 + choose(2) } else { 0 };
     let mut w = world(o.max_depth + 1);
     let root = gen_tree(o);
     let mut uids = BTreeMap::new();
@@ -33,7 +40,12 @@ pub fn run_tree(o: &Opts) {
     let before = snapshot(&w.app);
     sc::trace_clear();
     let (user, k0) = (w.user.clone(), w.ks[0].clone());
-    let r = catch(|| w.app.execute_contract(user, k0, &script, &[]));
+    note(format!("root_entry={}", root_entry));
+    let r = catch(|| match root_entry {
+        0 => w.app.execute_contract(user, k0, &script, &[]),
+        1 => w.app.wasm_sudo(k0, &script),
+        _ => w.app.migrate_contract(user, k0, &script, 1),
+    });
     let r = match r {
         Ok(r) => r,
         Err(p) => {
@@ -185,6 +197,9 @@ pub fn scenarios(tier: &str) -> Vec<Scenario> {
     }));
     v.push(Scenario::new("trees_nodes3_reply_handlers_emit_submessages_instantiate_leaves", &["tree_ok", "tree_err", "some_failure_caught", "some_instance_kept"], || {
         run_tree(&Opts { max_depth: 1, max_nodes: 3, max_children: 2, vary_output: false, vary_ids: false, reply_subs: true, inst_leaves: true })
+    }));
+    v.push(Scenario::new("trees_depth2_nodes3_root_dispatched_by_sudo_or_migrate", &["tree_ok", "tree_err", "some_failure_caught"], || {
+        run_tree_from(&Opts::plain(2, 3, 2), true)
     }));
     if tier == "thorough" {
         v.push(Scenario::new("trees_depth2_nodes4_reply_handlers_emit_submessages_instantiate_leaves", &["tree_ok", "tree_err", "some_failure_caught", "some_instance_kept"], || {
